@@ -58,6 +58,17 @@ Theorem C07_withheld : forall l r m, In l ragged_languages ->
 Proof. exact withheld_iff. Qed.
 Print Assumptions C07_withheld.
 
+(* R: with int64 indices, code is given exactly while every index value -- at most the number of
+   stored values -- fits R's 32-bit integer; the cut-off is the one in the source *)
+Theorem C07_r_limit : r_size_limit = 2 ^ 31 - 1 /\
+  forall r, numtype_eqb (ri_int r) Int64 = true ->
+            (r_size_ok r = true <-> ri_vlen r * prodZ (ri_atom r) <= 2 ^ 31 - 1).
+Proof.
+  split; [reflexivity|]. intros r Hi. unfold r_size_ok. rewrite Hi. cbn [andb].
+  change r_size_limit with (2 ^ 31 - 1). rewrite negb_true_iff, Z.ltb_ge. reflexivity.
+Qed.
+Print Assumptions C07_r_limit.
+
 (* non-vacuity: atom (2,3), three subarrays of lengths 1, 0, 2 read in Julia: subarray 3 (k0 = 2) has
    dims (3, 2, 2); the empty one has dims (3, 2, 0); in IDL the empty one has no dims *)
 Definition ex_r : rinfo := mkRinfo 3 [2; 3] Float32 Little 3 Int64 Little.
